@@ -218,7 +218,57 @@ fn report_failure(args: &Args, rep: &mut Report, ast: &OpeningHoursExpression, h
     rep.violation("state_next_change", format!("{text:?} [{}]: {what}", hol.to_string()), json!({"expr": text, "holidays": hol.to_string(), "instant": t.to_string(), "horizon_days": horizon}), known);
 }
 
+/// Exact next_change grid: for one-rule expressions taking every value of one selector parameter,
+/// next_change from sampled instants (start, last minute, inside of a run) equals the start of the
+/// next run obtained by evaluating EVERY day of a long window; None exactly in the last run before
+/// 10000-01-01.
+fn exact_grid(args: &Args, rep: &mut Report) {
+    use chrono::NaiveDate;
+    let exprs = stream::grid_day_selectors(args.thorough(), args.seed + 1);
+    let mut st = stream::ExactStats { days_evaluated: 0, intervals_compared: 0, next_change_calls: 0 };
+    let suffixes = ["", " 10:00-12:00", " 22:00-26:00 unknown"];
+    let ymd = |y: i32, m: u32, d: u32| NaiveDate::from_ymd_opt(y, m, d).unwrap();
+    let w = 1900 + 150 * ((args.seed + 7) % 53) as i32;
+    let windows = if args.thorough() { vec![(ymd(1900, 1, 1), ymd(2400, 12, 31)), (ymd(9500, 1, 1), ymd(9999, 12, 31)), (ymd(w, 1, 1), ymd(w + 499, 12, 31))] } else { vec![(ymd(w, 1, 1), ymd(w + 149, 12, 31)), (ymd(9900, 1, 1), ymd(9999, 12, 31))] };
+    let mut idx = 0u64;
+    for (i, base) in exprs.iter().enumerate() {
+        let vi = (i as u64 + args.seed) % 3;
+        idx += 1;
+        if (idx - 1) % args.of.max(1) != args.worker {
+            continue;
+        }
+        let text = format!("{base}{}", suffixes[vi as usize]);
+        let Some(oh) = build(&text, &HolSpec::None) else { continue };
+        for (d0, d1) in &windows {
+            rep.evaluations += 1;
+            rep.begin(&format!("exact grid {text} | {d0} .. {d1}"));
+            let mut r = Rng::new(args.seed, 0xe8ac7, idx);
+            match stream::check_exact(&oh, *d0, *d1, &mut r, if args.thorough() { 400 } else { 120 }, &mut st) {
+                Ok(()) => {
+                    rep.count("exact_grid_windows_passed");
+                    rep.nontrivial(crate::rng::hash64(&format!("exact|{text}|{d0}")));
+                }
+                Err(msg) => {
+                    rep.violation("state_next_change_exact", format!("{text:?} [none]: {msg}"), json!({"expr": text, "holidays": "none", "exact_from": d0.to_string(), "exact_to": d1.to_string(), "seed": args.seed, "stream": idx}), None);
+                    if rep.full() {
+                        return;
+                    }
+                    break;
+                }
+            }
+        }
+    }
+    rep.add("exact_grid_days_evaluated", st.days_evaluated);
+    rep.add("exact_grid_next_change_calls", st.next_change_calls);
+}
+
 pub fn run(args: &Args, rep: &mut Report) {
+    if !args.extra.iter().any(|e| e == "nogrid") {
+        exact_grid(args, rep);
+        if rep.full() {
+            return;
+        }
+    }
     let n = args.cases(50_000, 25_000);
     let horizon = if args.thorough() { 60 * 366 } else { 3 * 366 };
     let mut full_walks: i64 = if args.thorough() { 60 } else { 2 };
@@ -298,6 +348,19 @@ pub fn run(args: &Args, rep: &mut Report) {
 pub fn replay(args: &Args, case: &Value, rep: &mut Report) {
     let text = case_expr(case);
     let hol = case_hol(case);
+    if let (Some(d0), Some(d1)) = (case["exact_from"].as_str().and_then(|s| s.parse::<chrono::NaiveDate>().ok()), case["exact_to"].as_str().and_then(|s| s.parse::<chrono::NaiveDate>().ok())) {
+        rep.evaluations += 1;
+        let Some(oh) = build(&text, &hol) else {
+            rep.violation("witness_rejected", format!("{text:?} does not parse"), case.clone(), None);
+            return;
+        };
+        let mut st = stream::ExactStats { days_evaluated: 0, intervals_compared: 0, next_change_calls: 0 };
+        let mut r = Rng::new(case["seed"].as_u64().unwrap_or(5), 0xe8ac7, case["stream"].as_u64().unwrap_or(0));
+        if let Err(msg) = stream::check_exact(&oh, d0, d1, &mut r, 400, &mut st) {
+            rep.violation("state_next_change_exact", format!("{text:?} [{}]: {msg}", hol.to_string()), case.clone(), None);
+        }
+        return;
+    }
     let Some(t) = case["instant"].as_str().and_then(|s| NaiveDateTime::parse_from_str(s, "%Y-%m-%d %H:%M:%S%.f").ok()) else {
         rep.violation("bad_replay", "replay without instant".into(), case.clone(), None);
         return;
